@@ -2,7 +2,7 @@
 From Coq Require Import Ascii String List Bool Arith ZArith NArith QArith Qabs.
 From PTBase Require Import Exn PyStr PyNum PyVal Fmt FixedFormat.
 From Gen Require Import GenTables.
-From P Require Import Main Digits ReadBack Round QVal FieldRB Fits.
+From P Require Import Main Digits ReadBack Round QVal FieldRB Fits Tail.
 Import ListNotations.
 
 (** finite obligation over the regenerated tables: every width non-zero, precision
@@ -162,3 +162,34 @@ Theorem tight_e_field_fits_characterised : forall f ng m e,
   (fmt_field f (XReal ng m e) = Ok (fmt_e (fw f) (prec f) ng m e) <-> ng = false /\ (Z.abs k <= 99)%Z).
 Proof. exact tight_e_field_fits. Qed.
 Print Assumptions tight_e_field_fits_characterised.
+
+(** ** short value lists and loud failures (Tail.v) *)
+
+(** a value list shorter than the record (zip truncation in write_values_to_string): every
+    position at or beyond the end of the value list parses to "absent" -- None, the empty
+    string for an 's' field -- from the written line as returned (rest = []) or as it sits
+    in the file after write_values / readline (rest = newline), under either read function:
+    never a piece of a written neighbour *)
+Theorem short_record_tail_reads_absent : forall rf specs vals l i f rest,
+  rf_ok rf -> write_fields specs vals = Ok l ->
+  (length vals <= i)%nat -> nth_error specs i = Some f ->
+  (rest = [] \/ rest = [newline]) ->
+  nth_error (parse_string rf specs (concat l ++ rest)%list) i = Some (match ft f with Ts => RStr [] | _ => RNone end).
+Proof. exact tail_reads_absent. Qed.
+Print Assumptions short_record_tail_reads_absent.
+
+(** a record write that raises does so with the exception of one of its own (field, value)
+    pairs -- the first that does not fit; every pair before it formats *)
+Theorem write_fails_only_by_own_field : forall specs vals e, write_fields specs vals = Raise e ->
+  exists i f v, nth_error specs i = Some f /\ nth_error vals i = Some v /\ fmt_field f v = Raise e /\
+    (forall j g u, (j < i)%nat -> nth_error specs j = Some g -> nth_error vals j = Some u -> exists s, fmt_field g u = Ok s).
+Proof. exact write_raise_own_field. Qed.
+Print Assumptions write_fails_only_by_own_field.
+
+(** the writer returns a line exactly when every value formats in its own field: whether a
+    record can be written never depends on how values combine *)
+Theorem write_succeeds_iff_every_field_fits : forall specs vals,
+  (exists l, write_fields specs vals = Ok l) <->
+  (forall i f v, nth_error specs i = Some f -> nth_error vals i = Some v -> exists s, fmt_field f v = Ok s).
+Proof. exact write_ok_iff_fields_ok. Qed.
+Print Assumptions write_succeeds_iff_every_field_fits.
